@@ -169,3 +169,5 @@ func firstDiffLine(a, b string) string {
 	}
 	return ""
 }
+
+func lineOf(text string) *logline.LogLine { return hx.Line("log", text) }
